@@ -120,7 +120,11 @@ theorem no_panic_partial (hα : LawfulAmp α P) (nq nc : Nat) (calls : List (Cal
   obtain ⟨hN, hgood⟩ := execWF_opGood hwf (by
     rw [hsz.2.1, hsz.2.2]; exact built_inRange nq nc calls)
   rw [hsz.2.1, hsz.2.2] at hgood
-  have hsafe := execOps_vec_safe (nc := nc) (routeTotal_of_c04 hα nq) hN _ (VecState.new nq shots)
+  have hnq : nq < 64 := by
+    have := hwf
+    simp only [ExecWF, Bool.and_eq_true, decide_eq_true_eq] at this
+    rw [hsz.2.1] at this; exact this.1.2
+  have hsafe := execOps_vec_safe (nc := nc) (routeTotal_of_c04 hα nq hnq) hN _ (VecState.new nq shots)
     (List.replicate shots 0) (new_vinv hN) (by simp) hgood
   have := hsafe.sound ds r ds' hrun
   match r, this with
@@ -141,7 +145,11 @@ theorem no_panic_reexecute_partial (hα : LawfulAmp α P) (nq nc : Nat) (calls :
   obtain ⟨hN, hgood⟩ := execWF_opGood hwf (by
     rw [hsz.2.1, hsz.2.2]; exact built_inRange nq nc calls)
   rw [hsz.2.1, hsz.2.2] at hgood
-  have hsafe := execOps_vec_safe (nc := nc) (routeTotal_of_c04 hα nq) hN _ s0 c0 hs0 hc0 hgood
+  have hnq : nq < 64 := by
+    have := hwf
+    simp only [ExecWF, Bool.and_eq_true, decide_eq_true_eq] at this
+    rw [hsz.2.1] at this; exact this.1.2
+  have hsafe := execOps_vec_safe (nc := nc) (routeTotal_of_c04 hα nq hnq) hN _ s0 c0 hs0 hc0 hgood
   have := hsafe.sound ds r ds' hrun
   match r, this with
   | .ok (s, c), h => exact Or.inl ⟨s, c, rfl, h.1, h.2⟩
